@@ -166,7 +166,7 @@ package keeper
 //@   ensures [g] forall d: str :: G[k.skey][d] == old(G)[k.skey][d]
 //@                - storeWeight(aKey(obj.ID), old(KVhas)[k.skey][aKey(obj.ID)], old(KVval)[k.skey][aKey(obj.ID)], d)
 //@                + ite(obj.Balance.Denom == d, obj.Balance.Amount, 0)
-//@   ensures [gframe] forall sk: iface :: sk != k.skey ==> G[sk] == old(G)[sk]
+//@   ensures [gframe] forall sk: iface {KVval[sk]} :: sk != k.skey ==> G[sk] == old(G)[sk]
 
 //@ func (*keeper).savePayment
 //@   modifies ghost KVhas, ghost KVval, ghost G
@@ -175,7 +175,7 @@ package keeper
 //@   ensures [g] forall d: str :: G[k.skey][d] == old(G)[k.skey][d]
 //@                - storeWeight(pKey(obj.AccountID, obj.PaymentID), old(KVhas)[k.skey][pKey(obj.AccountID, obj.PaymentID)], old(KVval)[k.skey][pKey(obj.AccountID, obj.PaymentID)], d)
 //@                + ite(obj.Balance.Denom == d, obj.Balance.Amount, 0)
-//@   ensures [gframe] forall sk: iface :: sk != k.skey ==> G[sk] == old(G)[sk]
+//@   ensures [gframe] forall sk: iface {KVval[sk]} :: sk != k.skey ==> G[sk] == old(G)[sk]
 
 // ---- bank (assumed, A-BANK): moves exactly amt or fails without effect ------
 //@ extern keeper.(BankKeeper).SendCoinsFromModuleToAccount(recv, ctx, senderModule, recipientAddr, amt)
@@ -207,7 +207,7 @@ package keeper
 //@                              && Bank == old(Bank)[unbech32(obj.Owner) := old(Bank)[unbech32(obj.Owner)][obj.Balance.Denom := old(Bank)[unbech32(obj.Owner)][obj.Balance.Denom] + old(obj.Balance.Amount)]]
 //@   ensures [g] result == nil ==> (forall d: str :: G[k.skey][d] == old(G)[k.skey][d]
 //@                - storeWeight(pKey(obj.AccountID, obj.PaymentID), old(KVhas)[k.skey][pKey(obj.AccountID, obj.PaymentID)], old(KVval)[k.skey][pKey(obj.AccountID, obj.PaymentID)], d))
-//@   ensures [gframe] forall sk: iface :: sk != k.skey ==> G[sk] == old(G)[sk]
+//@   ensures [gframe] forall sk: iface {KVval[sk]} :: sk != k.skey ==> G[sk] == old(G)[sk]
 
 //@ func (*keeper).accountWithdraw
 //@   ensures [conserve] old(KVhas)[k.skey][aKey(obj.ID)]
@@ -222,7 +222,7 @@ package keeper
 //@                              && Bank == old(Bank)[unbech32(obj.Owner) := old(Bank)[unbech32(obj.Owner)][obj.Balance.Denom := old(Bank)[unbech32(obj.Owner)][obj.Balance.Denom] + old(obj.Balance.Amount)]]
 //@   ensures [g] result == nil ==> (forall d: str :: G[k.skey][d] == old(G)[k.skey][d]
 //@                - storeWeight(aKey(obj.ID), old(KVhas)[k.skey][aKey(obj.ID)], old(KVval)[k.skey][aKey(obj.ID)], d))
-//@   ensures [gframe] forall sk: iface :: sk != k.skey ==> G[sk] == old(G)[sk]
+//@   ensures [gframe] forall sk: iface {KVval[sk]} :: sk != k.skey ==> G[sk] == old(G)[sk]
 
 // j-th payment record stored under the account's payment prefix (key order)
 //@ spec recAt(has: map[str]bool, val: map[str]str, id: types.AccountID, j: int): types.Payment = decode(types.Payment, val[enumKey(has, apKey(id), j)])
